@@ -3167,6 +3167,19 @@ void Analyser::AnalyserImpl::analyseModel(const ModelPtr &model)
             nlaEquation->mNlaSystemIndex = nlaSystemIndex;
             nlaEquation->mUnknownVariables = nlaSystemUnknownVariables;
 
+            // An unknown variable of the NLA system may have been known when
+            // the equation was checked (e.g., an unknown variable computed by
+            // another equation of what is now the same NLA system), hence a
+            // dependency on it, which we must now remove or the equation would
+            // depend on the equations of its own NLA system, itself included.
+
+            for (const auto &unknownVariable : nlaSystemUnknownVariables) {
+                nlaEquation->mDependencies.erase(std::remove_if(nlaEquation->mDependencies.begin(), nlaEquation->mDependencies.end(), [&](const auto &dependency) {
+                                                     return mModel->areEquivalentVariables(dependency, unknownVariable->mVariable);
+                                                 }),
+                                                 nlaEquation->mDependencies.end());
+            }
+
             nlaEquation->mNlaSiblings.clear();
 
             for (const auto &otherNlaEquation : nlaSystem) {
